@@ -37,6 +37,40 @@ def _quantified(e):
     return res
 
 
+def split_goal(g, depth=0):
+    """Split a goal into independently provable pieces: conjunctions, implications with conjunctive consequents and
+    universally quantified conjunctions."""
+    if depth > 6:
+        return [g]
+    if z3.is_and(g):
+        out = []
+        for ch in g.children():
+            out.extend(split_goal(ch, depth + 1))
+        return out
+    if z3.is_implies(g):
+        a, b = g.children()
+        parts = split_goal(b, depth + 1)
+        if len(parts) > 1:
+            return [z3.Implies(a, p) for p in parts]
+        return [g]
+    if z3.is_quantifier(g) and g.is_forall():
+        nv = g.num_vars()
+        body = g.body()
+        parts = split_goal(body, depth + 1)
+        if len(parts) > 1:
+            names = [g.var_name(i) for i in range(nv)]
+            sorts = [g.var_sort(i) for i in range(nv)]
+            consts = [z3.Const(f"{n}!s", srt) for n, srt in zip(names, sorts)]
+            # de Bruijn: variable 0 is the innermost (last) bound variable
+            out = []
+            for p in parts:
+                inst = z3.substitute_vars(p, *reversed(consts))
+                out.append(z3.ForAll(consts, inst))
+            return out
+        return [g]
+    return [g]
+
+
 class PathEnd(Exception):
     pass
 
@@ -137,6 +171,7 @@ class Executor:
     # ------------------------------------------------------------------------------------------- path state
     def reset_path(self, prefix):
         self.pc = []
+        self.pc_ids = set()
         self.heap = {}
         self.alloc = z3.Int('alloc0')
         self.alloc0 = self.alloc
@@ -168,8 +203,15 @@ class Executor:
         z = z3.simplify(z)
         if z3.is_false(z):
             raise PathEnd()
+        if z3.is_and(z):
+            for ch in z.children():
+                self.assume(ch)
+            return
         if not z3.is_true(z):
-            self.pc.append(z)
+            k = z.get_id()
+            if k not in self.pc_ids:
+                self.pc_ids.add(k)
+                self.pc.append(z)
 
     def feasible(self, extra):
         self.stats['feas_checks'] += 1
@@ -267,7 +309,8 @@ class Executor:
             self._touch(kind, fr, node, tag)
             return
         name = self._oname(kind, fr, node, tag)
-        self.obligations.append(Obligation(name, kind, self.pc, goal, getattr(node, 'lineno', self.cur_line), info))
+        for piece in split_goal(goal):
+            self.obligations.append(Obligation(name, kind, self.pc, piece, getattr(node, 'lineno', self.cur_line), info))
 
     def _oname(self, kind, fr, node, tag):
         fi = fr.fi if fr is not None and fr.fi is not None else self.target
@@ -328,9 +371,24 @@ class Executor:
         if isinstance(v, VView):
             v = self.materialize(v)
         tree = self.heap_tree(fname, ref.cls, like=v)
+        if isinstance(v, VSeq) and isinstance(tree, VSeq) and not self._same_shape(sel(tree, z3.IntVal(0)), v):
+            # convert to the declared field type (e.g. a matrix of None literals into list[list[optref[..]]])
+            conv = fresh(type_of(sel(tree, z3.IntVal(0))), self.fresh_name('conv'))
+            conv.skind = v.skind
+            self.assume_forall_eq([], z3.BoolVal(True), conv, v)
+            v = conv
         self.heap[fname] = sto(tree, ref.z, v)
         if isinstance(v, VSeq):
             self.field_oids[v.oid] = self.field_oids.get(v.oid, 0) + 1
+
+    def _same_shape(self, a, b):
+        if type(a) is not type(b):
+            return False
+        if isinstance(a, VSeq):
+            return self._same_shape(a.elem, b.elem)
+        if isinstance(a, VTuple):
+            return len(a.items) == len(b.items) and all(self._same_shape(x, y) for x, y in zip(a.items, b.items))
+        return True
 
     def cls_of(self, refz):
         if '__cls__' not in self.heap:
@@ -373,46 +431,30 @@ class Executor:
                 return z3.BoolVal(exc_is_subclass(v.py, cls, self.repo))
         raise Unsupported(f"isinstance({v!r}, {cls})")
 
-    def assume_type(self, v: V, ty: Ty):
-        """Type invariants of a declared parameter / result."""
+    def type_facts(self, v: V, ty: Ty):
+        """Type invariants of a value of declared type ty, as a list of z3 facts (nested sequences quantified)."""
+        facts = []
         if isinstance(v, VRef):
-            self.assume(z3.And(v.z >= 0, v.z < self.alloc))
-            if not ty.nullable:
-                self.assume(v.z != 0)
-            if ty.cls in self.repo.classes:
-                inst = self.isinstance_z(VRef(v.z, None), ty.cls)
-                self.assume(z3.Or(v.z == 0, inst))
-        elif isinstance(v, (VSeq,)):
-            self.assume(v.n >= 0)
-            et = ty.elem
-            if et.kind == 'ref':
-                k = self.fresh_int('k')
-                e = sel(v.elem, k)
-                conds = [e.z >= 0, e.z < self.alloc]
-                if not et.nullable:
-                    conds.append(e.z != 0)
-                if et.cls in self.repo.classes:
-                    conds.append(z3.Or(e.z == 0, self.isinstance_z(VRef(e.z, None), et.cls)))
-                self.assume(z3.ForAll([k], z3.Implies(z3.And(k >= 0, k < v.n), z3.And(conds))))
-            elif et.kind == 'seq':
-                k = self.fresh_int('k')
-                self.assume(z3.ForAll([k], z3.Implies(z3.And(k >= 0, k < v.n), sel(v.elem, k).n >= 0)))
-            elif et.kind == 'tuple':
-                k = self.fresh_int('k')
-                e = sel(v.elem, k)
-                conds = []
-                for it, ity in zip(e.items, et.items):
-                    if isinstance(it, VRef):
-                        conds += [it.z >= 0, it.z < self.alloc]
-                        if not ity.nullable:
-                            conds.append(it.z != 0)
-                        if ity.cls in self.repo.classes:
-                            conds.append(z3.Or(it.z == 0, self.isinstance_z(VRef(it.z, None), ity.cls)))
-                if conds:
-                    self.assume(z3.ForAll([k], z3.Implies(z3.And(k >= 0, k < v.n), z3.And(conds))))
-        elif isinstance(v, VTuple):
+            facts += [v.z >= 0, v.z < self.alloc]
+            if not getattr(ty, 'nullable', True):
+                facts.append(v.z != 0)
+            if getattr(ty, 'cls', None) in self.repo.classes:
+                facts.append(z3.Or(v.z == 0, self.isinstance_z(VRef(v.z, None), ty.cls)))
+        elif isinstance(v, VSeq):
+            facts.append(v.n >= (-1 if getattr(ty, 'nullable', False) else 0))
+            k = self.fresh_int('k')
+            inner = self.type_facts(sel(v.elem, k), ty.elem)
+            if inner:
+                facts.append(z3.ForAll([k], z3.Implies(z3.And(k >= 0, k < v.n), z3.And(inner))))
+        elif isinstance(v, VTuple) and ty.kind == 'tuple':
             for it, ity in zip(v.items, ty.items):
-                self.assume_type(it, ity)
+                facts += self.type_facts(it, ity)
+        return facts
+
+    def assume_type(self, v: V, ty: Ty):
+        """Type invariants of a declared parameter / result / heap-read value."""
+        for f in self.type_facts(v, ty):
+            self.assume(f)
 
     def materialize(self, v) -> VSeq:
         if isinstance(v, VSeq):
@@ -472,6 +514,8 @@ class Executor:
                 return a.z == 0
             if isinstance(a, VOptInt):
                 return a.isnone
+            if isinstance(a, VSeq) and a.nullable:
+                return a.n == -1
             return z3.BoolVal(False)
         if isinstance(a, VBool) and isinstance(b, VInt):
             a = VInt(z3.If(a.z, 1, 0))
